@@ -3,6 +3,7 @@
 from __future__ import annotations
 
 import ast
+import re
 
 from ..model import AnalysisError, norm, walk_live, parent, ancestors, first_line
 from ..report import RuleResult
@@ -323,6 +324,14 @@ def rule_dep_order(P, which=("earley", "agenda", "solvers")):
             if len(edges) != 1 or edges[0][1] == "?":
                 raise AnalysisError(f"{bf.qual}: expected one edge store of recognised orientation, got "
                                     f"{[(norm(s), o) for s, o in edges]}")
+            # the order must come from the graph of *unary* rules only: buckets are SCC indices, and the SCCs of a graph that also
+            # has the edges of longer rules merge mutually recursive symbols, which then tie although a unary rule links them
+            unary_only = any(re.match(r"^1 == len\(\w+\.body\)$", t) for t in W.cfacts(bf.node, edges[0][0]))
+            if not unary_only:
+                r.add(init, defs[0], False, f"`{first_line(defs[0])}`: {builder} also has the edges of non-unary rules; its SCC buckets give mutually "
+                      f"recursive nonterminals the same number, so a unary rule X→Y inside such a component is not ordered and X can be "
+                      f"popped before Y's contribution arrives", slots=dict(builder=builder), construct=f"{rel}: source of the agenda order")
+                continue
             orient = edges[0][1]
             low = emitted_first(orient)  # side with the lower bucket index
             stores = _find_priority_store(upd)
@@ -573,5 +582,22 @@ def rule_tol_site(P):
                 ok = ("old[" in a0 and "+" in a1) or ("old[" in a1 and "+" in a0)
         r.add(g, cmp if cmp is not None else n, ok, "" if ok else f"the tolerance is applied at `{first_line(W.stmt_of(n))}`, not to the merged update of the popped "
               f"symbol: individually negligible contributions (25 000 rules of weight 4e-13) are dropped although their sum is not")
-    r.min_instances = 1
+    # structural decisions (is this symbol nullable / useless / is this weight the zero) are exact tests: a distance appears only in the
+    # convergence tests of the two evaluators and in comparison helpers
+    ALLOWED = ("cfg.py::CFG.agenda", "cfg.py::CFG.naive_bottom_up", "cfg.py::CFG.assert_equal", "cfg.py::CFG.assert_equivalent")
+    n_metric = 0
+    for q in sorted(P.funcs):
+        g = P.funcs[q]
+        if q.startswith(("semiring.py::", "chart.py::", "wfsa/field_wfsa.py::")):
+            continue
+        for n in walk_live(g.node):
+            if isinstance(n, ast.Call) and isinstance(n.func, ast.Attribute) and n.func.attr == "metric" and W.enclosing_function(n) is g.node:
+                n_metric += 1
+                ok = q.startswith(ALLOWED) or g.name.startswith(("assert_", "_approx", "approx"))
+                r.add(g, n, ok, "" if ok else f"`{first_line(W.stmt_of(n))}` decides with a distance instead of an exact test: R.metric(x, zero) is nan for the zero of "
+                      f"the tropical and log types (-inf - -inf), and a small non-zero weight is not the zero", slots=dict(call=norm(n)),
+                      construct=f"{g.name}: {norm(n)}")
+    if n_metric < 2:
+        r.undecided(f, f.node, "the evaluators' convergence tests (R.metric) were not found", construct="TOL-SITE: metric call sites")
+    r.min_instances = 3
     return r
